@@ -34,7 +34,7 @@ struct Op {
     bool quiesce = false;   // release only once every other thread is blocked: with several such threads the lock never goes idle
 };
 
-const int MAXT = 16;
+const int MAXT = 128;
 Resource *g_res = nullptr;
 Op g_next[MAXT];
 std::vector<Op> g_prog[MAXT];
